@@ -255,6 +255,13 @@ func buildBatchWorld(root string, days int) *batchWorld {
 			}
 		}
 		os.WriteFile(filepath.Join(root, "weather", "w", "WB.csv"), []byte(strings.Join(ls, "\n")), 0o644)
+		// ... and a station with one such day (one log message per run)
+		ls = strings.Split(string(wtxt), "\n")
+		if f := strings.Split(ls[8], ","); len(f) > 3 {
+			f[1], f[3] = f[3], f[1]
+			ls[8] = strings.Join(f, ",")
+		}
+		os.WriteFile(filepath.Join(root, "weather", "w", "WB1.csv"), []byte(strings.Join(ls, "\n")), 0o644)
 	}
 	// a weather file with a gap inside the simulated period (selected with fcode=WG)
 	if wtxt, err := os.ReadFile(filepath.Join(root, "weather", "w", "W.csv")); err == nil {
@@ -288,6 +295,7 @@ func buildBatchWorld(root string, days int) *batchWorld {
 		// project p2 with the weather station whose minimum/maximum temperatures are exchanged on 8 days (two output ids)
 		"Cw":  "project=p2 plotNr=1 fcode=WB parameter=par poligonID=W8",
 		"Cw2": "project=p2 plotNr=1 fcode=WB parameter=par poligonID=W9",
+		"Cv":  "project=p2 plotNr=1 fcode=WB1 parameter=par poligonID=W1",
 		// the same plot with groundwater from the time-series file
 		"As": "project=p1 plotNr=1 fcode=W parameter=par poligonID=S GroundWaterFrom=2",
 		// project p2 (scheduled irrigation, some events behind the end date) with automatic irrigation instead
